@@ -20,6 +20,7 @@ extern "C" void mon_run_begin(void);
 extern "C" void mon_run_end(void);
 extern "C" long mon_process_exit_live(void);
 
+extern "C" void __sanitizer_print_stack_trace(void);
 namespace sim {
 
 Ctx G;
@@ -61,6 +62,8 @@ void tr(const char *fmt, ...) {
 	h ^= 0xff; h *= 1099511628211ULL;
 	G.hash = h;
 	G.nlines++;
+	static int live = getenv("SIM_LIVE") ? 1 : 0;
+	if (live) fprintf(stderr, "%6llu t=%lld.%09lld %s\n", (unsigned long long)G.nlines, (long long)(G.now_ns / NS), (long long)(G.now_ns % NS), buf);
 	if (G.keep) {
 		char pre[48];
 		snprintf(pre, sizeof pre, "%6llu t=%lld.%09lld ", (unsigned long long)G.nlines,
@@ -82,6 +85,7 @@ void violation(const char *rule, const char *fmt, ...) {
 	G.detail = buf;
 	tr("orc VIOLATION %s: %s", rule, buf);
 	fprintf(stderr, "EARLY-VIOLATION %s %s\n", rule, buf);
+	if (getenv("VERIF_BT")) __sanitizer_print_stack_trace();
 }
 
 // ---------------------------------------------------------------------------
@@ -289,7 +293,7 @@ static Result run_forked(const Plan &p, bool keep) {
 	pid_t pid = fork();
 	if (pid == 0) {
 		close(rd);
-		dup2(efd, 2);
+		if (!getenv("SIM_LIVE")) dup2(efd, 2);
 		alarm(30);
 		Result cr;
 		run_inproc(p, keep, cr);
